@@ -12,7 +12,7 @@ import Oracle.Util
    sm <file> <steps>    → ret=<r>,<r>… file=<missing | number of lines> h=<hash of the lines' uids> head=<≤5 uids> tail=<≤3 uids> rd=<entries ReadLocalSegmeta finds>:<hash>
      file  ::= missing:<nidx> | <n>:<nidx>:<pad>:<specials>       entries 0..n-1 (key i, index i % nidx, uid i) in file order
      specials ::= - | item,item…   item ::= <pos>p<len>   entry pos is a line of exactly len bytes (1024 ≤ len)
-                                          | <pos>j<len>   a junk line of len bytes (0 or ≥ 64) before entry pos (pos ≤ n), uid 3000000+item number (len 0: 3999999)
+                                          | <pos>j<len>   a junk line of len bytes (0 or 64..70000000) before entry pos (pos ≤ n), uid 3000000+item number (len 0: 3999999); all p/j lengths together ≤ 80000000
                                           | <pos>d<k>     a second entry with key k < n (index k % nidx) before entry pos, uid 1000000+item number
      steps ::= step/step…   step ::= rm:<victims>:<index | ->  |  add:<key>      (the added line: uid 2000000+step number)
      victims ::= nil | e | v+v…   v ::= k<a> | m<mod>.<rem> (keys < n) | r<a>.<b> (a ≤ key < b) | x<a> (a key GetSegBaseDirFromFilename rejects)
@@ -157,13 +157,15 @@ inductive SmItem where
   | dup (pos k : Nat)
 
 def smMaxLen : Nat := 2200000
+def smMaxJunk : Nat := 70000000
+def smMaxTotal : Nat := 80000000
 
 def parseSmItem (n : Nat) (s : String) : Option SmItem :=
   match smSplitLetter s with
   | some (a, c, b) =>
     match natLt a (n + 1), c with
     | some pos, 'p' => if pos < n then (natLt b (smMaxLen + 1)).bind (fun l => if 1024 ≤ l then some (.pad pos l) else none) else none
-    | some pos, 'j' => (natLt b (smMaxLen + 1)).bind (fun l => if l = 0 ∨ 64 ≤ l then some (.junk pos l) else none)
+    | some pos, 'j' => (natLt b (smMaxJunk + 1)).bind (fun l => if l = 0 ∨ 64 ≤ l then some (.junk pos l) else none)
     | some pos, 'd' => (natLt b n).map (fun k => .dup pos k)
     | _, _ => none
   | none => none
@@ -193,6 +195,7 @@ def parseSmFile (s : String) : Option (SmFile × Nat × Nat) :=
       match items with
       | some items =>
         if items.length > 40 then none
+        else if (items.map (fun it => match it with | .pad _ l => l | .junk _ l => l | .dup _ _ => 0)).sum > smMaxTotal then none
         else if !nodupKeys (items.filterMap (fun it => match it with | .pad p _ => some p | _ => none)) then none
         else some (.lines (smBuild n nidx pad items), n, nidx)
       | none => none
